@@ -149,11 +149,27 @@ def run(argv):
             chk.violation({"kind": "read-raised", "error": type(e).__name__}, f"reading generated window files raised {e}")
             continue
         R = [reacs[i] for i in order]  # reactions in network order
-        backends = ["dense", "rosenbrock4"] if tier == "quick" else ["dense", "sparse", "rosenbrock4"]
+        backends = ["dense", "rosenbrock4", "cusparse"] if tier == "quick" else ["dense", "sparse", "rosenbrock4", "cusparse"]
         for b in backends:
             path = d / b
             render(net, b, path)
             rd = Rendered(path, b)
+            if b == "cusparse":
+                # the GPU kernels cannot be compiled here: their rate statements are the same template output (compared as
+                # text with the dense rendering), and each kernel must zero its k[] before calling EvalRates
+                src = "".join(p.read_text() for p in (path / "src").glob("*.c*"))
+                calls = len(re.findall(r"\bEvalRates\(k,", src))
+                inits = len(re.findall(r"\bk\[NREACTIONS\]\s*=\s*\{\s*0\.0\s*\}", src))
+                if calls == 0 or inits < calls:
+                    chk.violation({"kind": "k-not-zero-initialised", "backend": b},
+                                  f"{calls} EvalRates call sites but {inits} zero initialisers of k[]")
+                try:
+                    ws = lambda x: None if x is None else "".join(x.split())
+                    if [(i, ws(r), ws(c)) for i, r, c in rd.rates("k")] != [(i, ws(r), ws(c)) for i, r, c in Rendered(d / "dense", "dense").rates("k")]:
+                        chk.violation({"kind": "cusparse-rates-differ"}, "the cusparse EvalRates differs from the dense one")
+                except cparse.CParseError as e:
+                    chk.violation({"kind": "unreadable-output", "backend": b}, f"rates not readable: {e}")
+                continue
             try:
                 stmts = rd.rates("k")
             except cparse.CParseError as e:
